@@ -290,7 +290,7 @@ class World:
         return True
 
     # ------------------------------------------------------------------ files
-    def write_files(self, mods, cfgs, nfiles, tag, extra_nodes=True):
+    def write_files(self, mods, cfgs, nfiles, tag, extra_nodes=True, dup=None):
         rng = self.rng
         d = os.path.join(self.dir, f'{tag}{self.k}')
         os.makedirs(d, exist_ok=True)
@@ -303,6 +303,16 @@ class World:
                 if ms['name'] not in split[fi]:
                     continue
                 lines.append(self.mod_text(ms, cfgs[ms['name']]))
+            if dup is not None and fi == dup[1]:
+                # a later source configures a module of the first file once more, differently: the sources are merged in
+                # the order given, the section read first is the module's configuration (as for the node section) and the
+                # clash is reported
+                ms = next(m for m in mods if m['name'] == dup[0])
+                cfg2 = dict(cfgs[ms['name']], items=dict(cfgs[ms['name']]['items']))
+                cfg2.pop('no_description', None)
+                if 'group' not in cfg2['items']:
+                    cfg2['items']['group'] = ('modprop', 'dupgroup', None)
+                lines.append(self.mod_text(dict(ms, description='section of a later file'), cfg2))
             path = os.path.join(d, f'part{fi}_cfg.py')
             with open(path, 'w', encoding='utf-8') as f:
                 f.write('\n'.join(lines) + '\n')
@@ -373,7 +383,11 @@ class World:
     def run_valid(self, mods, cfgs):
         r, rng = self.r, self.rng
         nfiles = rng.choice([1, 1, 2, 3])
-        files, split = self.write_files(mods, cfgs, nfiles, 'ok')
+        dup = None
+        if nfiles > 1 and rng.random() < 0.4:
+            names0 = [ms['name'] for ms in mods][0::nfiles]
+            dup = (rng.choice(names0), rng.randrange(1, nfiles))
+        files, split = self.write_files(mods, cfgs, nfiles, 'ok', dup=dup)
         kinds = sorted({k for c in cfgs.values() for (_s, props, _sp) in c['items'].values() if isinstance(props, dict) for k in props})
         case = {'sub': 'valid', 'files': [open(f).read() for f in files]}
         node, code, exc, stderr, log = self.build(files)
@@ -396,6 +410,21 @@ class World:
                     if m is None or m.original_id != f'eq{fi}.verif':
                         r.violation('C10/merge/original-id-not-set', f'{name}: {getattr(m, "original_id", None)}', case)
                         return
+            if dup is not None:
+                r.count('merged_configs_with_a_module_configured_twice')
+                m = node.secnode.modules.get(dup[0])
+                if m is None:
+                    r.violation('C10/merge/duplicate-section/module-missing', dup[0], case)
+                    return
+                if m.description == 'section of a later file' or getattr(m, 'group', None) == 'dupgroup' or \
+                        getattr(m, 'original_id', None) == f'eq{dup[1]}.verif':
+                    r.violation('C10/merge/duplicate-section/later-file-wins',
+                                f'{dup[0]} is configured in file 0 and again in file {dup[1]}: built with description {m.description!r}, group '
+                                f'{getattr(m, "group", None)!r}, original_id {getattr(m, "original_id", None)!r}', case)
+                    return
+                if not any(lev == 'warning' and 'ambiguous' in msg and dup[0] in msg for lev, _n, msg in log.records):
+                    r.violation('C10/merge/duplicate-section/not-reported', f'{dup[0]}: {[x for x in log.records if x[0] == "warning"][:3]}', case)
+                    return
         desc = node.secnode.get_descriptive_data('')
         conn = self.nodes.Conn()
         node.dispatcher.add_connection(conn)
